@@ -2,8 +2,8 @@
 import z3, os, subprocess
 import stubs, procenv, libc, hlib, hashref, refscript as R, refexec, sesslib, build, runtool
 from irsym import is_sym, bv, simp, Unsupported
-from core import mkres, EncoderMismatch
-import C07, C14
+from core import mkres, EncoderMismatch, NativeViolation
+import C07, C14, C03, sighashlib
 
 ID = 'C06'
 TITLE = "tap's real main() run in the engine (scripted argv; internal key and script payloads symbolic, so leaf hashes sort either way): the emitted control block folded by the BIP341 rule must reproduce the Merkle root whose TapTweak was passed to the tweak, the parity bit must be the tweaked key's, and the printed address must be bech32m(hrp, 1, output key) independent of the spending index"
@@ -16,8 +16,8 @@ FUNCTIONS = ['main() of tap.cpp (argument handling, script parsing, TapLeaf/TapB
 ASSUMPTIONS = ['secp256k1_xonly_pubkey_parse is an uninterpreted predicate; secp256k1_xonly_pubkey_tweak_add records the tweak it is given and returns a fixed opaque point (each parity is a separate obligation); secp256k1_ec_pubkey_serialize serialises that point; ECC_Start/ECC_Stop stubbed', 'leaf script payloads become symbolic at the entry of TapLeaf::TapLeaf (argv itself is concrete), so leaf and branch hashes are unconstrained and every sort order at every branch is explored',
                'SHA-256 compression uninterpreted on symbolic input', 'process environment modelled (getopt_long, ttys, printf capture); stdout and stderr are terminals so that the control object is logged',
                'verification of the commitment by the debugger itself is decided by C05 on arbitrary control blocks, which includes the ones emitted here']
-OUTSIDE = ['n > 4 leaves in quick / n > 5 in thorough (measured: n = 5 returns unknown on some index, n = 6 exceeds 240 s - 2^n sort orders over nested hash terms); (tree code is uniform in n, depth grows)', 'the --tx/--txin/--sig path (witness insertion and reported sighash) - see the evidence note', 'the --privkey signing path (ENABLE_DANGEROUS is off in this build)', 'pseudo-terminal handling']
-BOUNDS = {'quick': 'n = 1..4 leaf scripts x every spending index (and no index); internal key concrete (it only feeds uninterpreted functions and the hash); each script a 2-byte symbolic push; both parities of the output key', 'thorough': 'n = 1..5'}
+OUTSIDE = ['n > 4 leaves in quick / n > 5 in thorough (measured: n = 5 returns unknown on some index, n = 6 exceeds 240 s - 2^n sort orders over nested hash terms); (tree code is uniform in n, depth grows)', 'the --privkey signing path (ENABLE_DANGEROUS is off in this build)', 'pseudo-terminal handling']
+BOUNDS = {'quick': 'n = 1..4 leaf scripts (all symbolic) x every spending index (and no index, compared with index 0); n = 5..13 with the spent leaf symbolic; leaf scripts of 3 bytes, and 28/29/252/253/254 bytes for the spent leaf; --tx/--txin (1 input, 1 output; version, lock time, sequence, output value, spent amount symbolic) key path and script path, with/without --sig, with spend arguments; internal key concrete (it only feeds uninterpreted functions and the hash); each script a 2-byte symbolic push; both parities of the output key', 'thorough': 'n = 1..5'}
 
 TWEAKADD = z3.Function('xonly_tweak_add', z3.BitVecSort(256), z3.BitVecSort(256), z3.BitVecSort(264))       # (internal key, tweak) -> parity byte || x
 
@@ -49,14 +49,45 @@ def setup(E):
         bs = [st.aux.get('parity_in', 2)] + [(37 * i + 11) & 0xff for i in range(32)]
         stubs.wr(E, st, out, bs + [0] * 31)
         return 1
+    def cscript_payload(E, st, script):
+        """address of the two payload bytes of a leaf script as argv_for writes it ([02 xx xx] or [4c len xx xx 00...]); CScript = prevector<28>: direct storage up to 28 bytes, else a heap pointer"""
+        size = E.load(st, script + 28, 4)
+        if is_sym(size): return None
+        data = script if size <= 28 else E.load(st, script, 8)
+        b0 = E.load(st, data, 1)
+        if is_sym(b0) or is_sym(data): return None
+        if b0 == 2: return data + 1
+        if b0 == 0x4c: return data + 2
+        return None
     def tapleaf_ctor(E, st, fr, I, A):
         this, index, script = A
         # make the leaf script's payload symbolic at the moment it is hashed (argv stays concrete, so parsing costs nothing)
-        if E.load(st, script, 1) == 2 and not st.aux.get('leaf_done_%d' % index) and (st.aux.get('symleaves') is None or index in st.aux['symleaves']):
-            for j in range(2): E.store(st, script + 1 + j, 1, z3.BitVec('s%d_%d' % (index, j), 8))
+        p = cscript_payload(E, st, script)
+        if p is not None and not st.aux.get('leaf_done_%d' % index) and (st.aux.get('symleaves') is None or index in st.aux['symleaves']):
+            for j in range(2): E.store(st, p + j, 1, z3.BitVec('s%d_%d' % (index, j), 8))
             st.aux['leaf_done_%d' % index] = True
         return stubs.NOT_HANDLED
     E.stubs['_ZN7TapLeafC2EmRK7CScript'] = tapleaf_ctor
+    def has_valid_ops(E, st, fr, I, A):
+        # --tx/--txin obligations: the spent script is copied into the witness before its TapLeaf is built, so its payload must become symbolic earlier:
+        # at the validity test main() applies to every parsed script (the argv pattern [02 a<i> b<i>] identifies the leaf)
+        if st.aux.get('tapsym'):
+            p = cscript_payload(E, st, A[0])
+            b = [E.load(st, p + j, 1) for j in range(2)] if p is not None else [z3.BitVec('x', 8)]
+            if not any(is_sym(x) for x in b) and (b[0] & 0xf0) == 0xa0 and b[1] == (b[0] & 0x0f) | 0xb0 and (b[0] & 0x0f) in (st.aux.get('symleaves') or []):
+                for j in range(2): E.store(st, p + j, 1, z3.BitVec('s%d_%d' % (b[0] & 0x0f, j), 8))
+        return stubs.NOT_HANDLED
+    E.stubs['_ZNK7CScript11HasValidOpsEv'] = has_valid_ops
+    def parse_input_tx(E, st, fr, I, A):
+        # sighash obligations: as soon as tap's main() has parsed both transactions (Instance::parse_input_transaction returned), the signed-over
+        # fields of the parsed transactions are replaced by symbolic bytes (shim w_tap_symbolize reads them from the global verif_tap_sym)
+        if st.aux.get('tapsym_done') or not st.aux.get('tapsym'): return stubs.NOT_HANDLED
+        st.aux['tapsym_done'] = True
+        this = A[0]
+        def post(st2, v): E.call(st2, '@w_tap_symbolize', [this], ret_to='reexec')
+        E.call(st, E.E.resolve_alias(I['callee'].name), A, ret_to=('post', post))
+        return 'handled'
+    E.stubs.prefix('_ZN8Instance23parse_input_transactionE', parse_input_tx)
     E.stubs['secp256k1_xonly_pubkey_tweak_add'] = tweak_add
     def serialize(E, st, fr, I, A):
         ctx, out, lenp, pk, flags = A
@@ -77,7 +108,40 @@ def obligations(tier, seed):
     for n in (list(range(5, 9)) + [10, 11, 13] if tier == 'quick' else list(range(5, 25)) + [32, 33]):
         for i in (range(n) if (tier != 'quick' or n <= 8) else sorted({0, n // 2, n - 2, n - 1})):
             obs.append(dict(name='tap/n%d/index%d/spent-leaf-symbolic' % (n, i), kind='tap', n=n, idx=i, parity=2 + (i & 1), symleaves=[i], cost=n))
+    # leaf scripts at the compact-size boundary of the TapLeaf hash (252 / 253 / 254 bytes) and at the prevector direct/indirect boundary (28 / 29)
+    for slen in (28, 29, 252, 253, 254) if tier == 'quick' else (28, 29, 76, 77, 128, 252, 253, 254, 255, 257):
+        for n, idx in ((1, 0), (2, 1), (3, 0)):
+            obs.append(dict(name='tap/n%d/index%d/leaf%dbytes' % (n, idx, slen), kind='tap', n=n, idx=idx, parity=2 + (slen & 1), symleaves=[idx], slen=slen, cost=n))
+    for slen in (253,) if tier == 'quick' else (29, 252, 253, 254):
+        for n in (1, 2): obs.append(dict(name='tap/n%d/noindex/leaf%dbytes' % (n, slen), kind='tap', n=n, idx=None, slen=slen, cost=2 ** n))
+    # --tx/--txin: witness insertion and the reported signature hash (key path: no spending index; script path: index given), with and without --sig
+    for n, idx in ((1, None), (2, None), (1, 0), (2, 0), (2, 1), (3, 2), (5, 4)) if tier == 'quick' else ((1, None), (2, None), (3, None), (1, 0), (2, 0), (2, 1), (3, 0), (3, 2), (4, 1), (5, 4), (6, 3), (8, 7)):
+        for sig in (0, 1):
+            obs.append(dict(name='tap-tx/n%d/%s/sig%d' % (n, 'keypath' if idx is None else 'index%d' % idx, sig), kind='taptx', n=n, idx=idx, parity=2 + (n & 1), symleaves=[idx] if idx is not None else [], sig=sig, cost=n))
+    for n, idx in ((1, 0), (2, 1), (3, 1)):
+        for sig in (0, 1): obs.append(dict(name='tap-tx/n%d/index%d/sig%d/two-spend-args' % (n, idx, sig), kind='taptx', n=n, idx=idx, parity=3 - (n & 1), symleaves=[idx], sig=sig, spendargs=[[0x07], [0x01, 0x02, 0x03]], cost=n))
+    for slen in (253,) if tier == 'quick' else (29, 252, 253, 254): obs.append(dict(name='tap-tx/n2/index1/sig1/leaf%dbytes' % slen, kind='taptx', n=2, idx=1, parity=2, symleaves=[1], sig=1, slen=slen, cost=3))
     return obs
+
+SIG64 = [(5 * i + 1) & 0xff for i in range(64)]
+PROGRAM = [(37 * i + 11) & 0xff for i in range(32)]          # the opaque tweaked key of the tweak_add stub: the funding output pays to it
+def tap_txs(V=None):
+    """concrete funding / spending transaction pair (the fields the digest signs over are made symbolic after parsing) and the symbolic field bytes"""
+    import hashlib
+    sym = V is None
+    def var(nm): return z3.BitVec(nm, 8) if sym else V.get(nm, 0)
+    f_full, f_stripped = C03.ser_tx([2, 0, 0, 0], [([0x11] * 32, [0, 0, 0, 0], [], [0xff] * 4, None)], [((100000).to_bytes(8, 'little'), [0x51, 0x20] + PROGRAM)], [0, 0, 0, 0])
+    txid = list(hashlib.sha256(hashlib.sha256(bytes(f_stripped)).digest()).digest())
+    out_spk = [0x00, 0x14] + [0x22] * 20
+    s_full, _ = C03.ser_tx([2, 0, 0, 0], [(txid, [0, 0, 0, 0], [], [0xfe, 0xff, 0xff, 0xff], None)], [((90000).to_bytes(8, 'little'), out_spk)], [0, 0, 0, 0])
+    fields = dict(ver=[var('ver%d' % i) for i in range(4)], lock=[var('lock%d' % i) for i in range(4)], seq=[var('seq%d' % i) for i in range(4)], oval=[var('oval%d' % i) for i in range(8)], amount=[var('amt%d' % i) for i in range(8)])
+    return f_full, s_full, txid, out_spk, fields
+
+def leaf_len(ob, i): return ob.get('slen', 3) if i == ob.get('idx') or (ob.get('idx') is None and i == 0) else 3
+def full_script(ob, i, s):
+    """bytes of leaf script i with the two payload bytes s: a 2-byte push, or - for the long leaf of an obligation - OP_PUSHDATA1 <len> s 00..00"""
+    L = leaf_len(ob, i)
+    return [2] + list(s) if L == 3 else [0x4c, L - 2] + list(s) + [0] * (L - 4)
 
 def argv_for(ob, V=None):
     sym = V is None
@@ -85,8 +149,16 @@ def argv_for(ob, V=None):
     key = list(bytes.fromhex('f30544d6009c8d8d94f5d030b2e844b1a3ca036255161c479db1cca5b374dd1c'))      # concrete internal key: 64 symbolic hex characters cost ~60 s of feasibility queries in TryHex alone; the key only feeds uninterpreted functions
     scripts = [[var('s%d_%d' % (i, j)) for j in range(2)] for i in range(ob['n'])]
     args = [list(b'tap'), C07.to_hex(key), list(str(ob['n']).encode())]
-    for i, s in enumerate(scripts): args.append(list(b'[0x') + (list(b'a%db%d' % (i % 10, i % 10)) if sym else C07.to_hex(s)) + list(b']'))
+    for i, s in enumerate(scripts):
+        if leaf_len(ob, i) == 3: args.append(list(b'[0x') + (list(b'a%db%d' % (i % 10, i % 10)) if sym else C07.to_hex(s)) + list(b']'))
+        else: args.append(C07.to_hex(full_script(ob, i, [0xa0 + i % 10, 0xb0 + i % 10] if sym else s)))          # a long leaf is given as the raw hex of the script
     if ob['idx'] is not None: args.append(list(str(ob['idx']).encode()))
+    for a in ob.get('spendargs', []): args.append(list(b'0x') + C07.to_hex(a))
+    if ob.get('kind') == 'taptx':
+        f_full, s_full, txid, out_spk, fields = tap_txs(V)
+        opts = [list(b'--tx=') + C07.to_hex(s_full), list(b'--txin=') + C07.to_hex(f_full)]
+        if ob['sig']: opts.append(list(b'--sig=') + C07.to_hex(SIG64))
+        args = [args[0]] + opts + args[1:]
     norm = lambda a: [z3.simplify(x).as_long() if (is_sym(x) and z3.is_bv_value(z3.simplify(x))) else x for x in a]
     return [norm(a) for a in args], key, scripts
 
@@ -148,8 +220,7 @@ def check_state(E, f, ob, key, scripts, res):
         else: ctl = unhex(ctl_hex)
         m = (len(ctl) - 33) // 32
         if len(ctl) != 33 + 32 * m: return True, 'control object of %d bytes' % len(ctl)
-        s = scripts[ob['idx']]
-        script = [2] + s                                     # push of the two payload bytes
+        script = full_script(ob, ob['idx'], scripts[ob['idx']])
         k = hashref.tagged(b'TapLeaf', [0xc0] + hashref.compact_size(len(script)) + script)
         for j in range(m):
             node = ctl[33 + 32 * j: 65 + 32 * j]
@@ -169,14 +240,65 @@ def check_state(E, f, ob, key, scripts, res):
     if any(t is True for t in terms): return True, bad[[t is True for t in terms].index(True)][0]
     return z3.Or(*terms) if len(terms) > 1 else terms[0], '+'.join(n for n, _ in bad)
 
+def logged_bytes(f, chars):
+    """bytes behind a logged hex string (placeholder <Hn> for symbolic content, real hex otherwise)"""
+    if chars is None: return None
+    if chars[:2] == list(b'<H'): return list(f.aux['hexes'][int(bytes(chars[2:-1]))])
+    return unhex(chars)
+
+def check_taptx(E, f, ob, key, scripts):
+    """--tx/--txin: the printed transaction is the given one with witness [sig, (script, control block)], and the reported sighash is the
+    BIP341 (key path) / BIP342 (script path) digest of that printed transaction for hash type 0x00"""
+    out1 = f.aux.get('out1', []); out2 = f.aux.get('out2', [])
+    f_full, s_full, txid, out_spk, F = tap_txs()
+    txb = logged_bytes(f, between(out1, b'Resulting transaction: '))
+    sh = logged_bytes(f, between(out2, b'sighash (little endian) = '))
+    if txb is None: return True, 'no resulting transaction printed'
+    if sh is None: return True, 'no sighash reported'
+    sig = SIG64 if ob['sig'] else list(bytes.fromhex('000102030405060708090a0b0c0d0e0f' * 4))       # the documented placeholder
+    wit = [sig]
+    leaf = None
+    if ob['idx'] is not None:
+        ctl = logged_bytes(f, between(out2, b'Final control object = '))
+        if ctl is None: return True, 'no control object logged'
+        script = full_script(ob, ob['idx'], scripts[ob['idx']])
+        wit += [list(a) for a in ob.get('spendargs', [])] + [script, ctl]
+        leaf = hashref.tagged(b'TapLeaf', [0xc0] + hashref.compact_size(len(script)) + script)
+    ins = [(txid, [0, 0, 0, 0], [], F['seq'], wit)]; outs = [(F['oval'], out_spk)]
+    want_tx, _ = C03.ser_tx(F['ver'], ins, outs, F['lock'])
+    bad = []
+    d = refexec.differs(txb, want_tx)
+    if d is not False: bad.append(('resulting-transaction', d))
+    T = dict(ver=F['ver'], lock=F['lock'], ins=ins, outs=outs)
+    spent = [(F['amount'], [0x51, 0x20] + PROGRAM)]
+    class Ctx:
+        def branch(s, c):
+            c = z3.simplify(c) if is_sym(c) else c
+            assert c is True or c is False or z3.is_true(c) or z3.is_false(c), 'hash type is concrete'
+            return c is True or (c is not False and z3.is_true(c))
+    want = sighashlib.ref_bip341(Ctx(), T, spent, 0, z3.BitVecVal(0, 8), R.TAPSCRIPT if leaf is not None else R.TAPROOT, None, None, leaf, [0xff] * 4)
+    d = refexec.differs(sh, want)
+    if d is not False: bad.append(('sighash', d))
+    if not bad: return False, ''
+    terms = [d for _, d in bad]
+    if any(t is True for t in terms): return True, bad[[t is True for t in terms].index(True)][0]
+    return (z3.Or(*terms) if len(terms) > 1 else terms[0]), '+'.join(n for n, _ in bad)
+
 def run(E, ob):
     res = mkres(ob['name'])
     args, key, scripts = argv_for(ob)
     st = E.new_state(); st.aux['tty'] = (1, 1, 1); st.aux['parity_in'] = ob.get('parity', 2); st.aux['symleaves'] = ob.get('symleaves')
+    if ob['kind'] == 'taptx':
+        f_full, s_full, txid, out_spk, fields = tap_txs()
+        st.aux['tapsym'] = True
+        ga = E.gaddr_of(st, '@verif_tap_sym')
+        for i, b in enumerate(fields['ver'] + fields['lock'] + fields['seq'] + fields['oval'] + fields['amount']): E.store(st, ga + i, 1, b)
+        inputs = None
     argc, av = procenv.make_argv(E, st, args)
     E.call(st, '@w_tap_main', [argc, av])
     fin = E.run(st)
     res['paths'] = len(fin); inputs = dict(key=key, scripts=scripts); cls = {}
+    if ob['kind'] == 'taptx': inputs['fields'] = fields
     addrs = []
     for f in fin:
         r = f.result
@@ -190,6 +312,10 @@ def run(E, ob):
             # a refusal (exit 1): only legitimate when the internal key does not parse - with the parse predicate uninterpreted both outcomes exist
             continue
         viol, what = check_state(E, f, ob, key, scripts, res)
+        if ob['kind'] == 'taptx':
+            v2, w2 = check_taptx(E, f, ob, key, scripts)
+            if v2 is True or viol is True: viol = True; what = w2 if v2 is True else what
+            elif v2 is not False: viol = v2 if viol is False else z3.Or(viol, v2); what = (what + '+' if what else '') + w2
         if viol is False: continue
         sol = z3.Solver(); sol.set('timeout', E.query_timeout_ms)
         for cnd in f.pc: sol.add(cnd)
@@ -201,6 +327,32 @@ def run(E, ob):
             res['cex'] = sesslib.concretize(m, inputs); break
         elif rr == z3.unknown: res['status'] = 'inconclusive'; res['note'] = 'solver unknown'; res['unknown'] += 1
         else: res['unsat'] += 1
+    if ob['kind'] == 'tap' and ob['idx'] is None and res['status'] == 'holds':
+        # the address (and the tweak behind it) must be the same whether or not a leaf is selected: second run with leaf 0 selected, compared path by path
+        ob2 = dict(ob, idx=0, parity=ob.get('parity', 2))
+        args2, _, _ = argv_for(ob2)
+        st2 = E.new_state(); st2.aux['tty'] = (1, 1, 1); st2.aux['parity_in'] = ob2['parity']; st2.aux['symleaves'] = ob.get('symleaves')
+        argc2, av2 = procenv.make_argv(E, st2, args2)
+        E.call(st2, '@w_tap_main', [argc2, av2])
+        fin2 = [g for g in E.run(st2) if g.aux.get('tweak') is not None and between(g.aux.get('out1', []), b'Resulting Bech32m address: ') is not None]
+        res['paths'] += len(fin2)
+        for f in fin:
+            if f.aux.get('tweak') is None: continue
+            a1 = between(f.aux.get('out1', []), b'Resulting Bech32m address: ')
+            if a1 is None: continue
+            for g in fin2:
+                d = refexec.differs(dict(tweak=f.aux['tweak'], addr=a1), dict(tweak=g.aux['tweak'], addr=between(g.aux['out1'], b'Resulting Bech32m address: ')))
+                if d is False: continue
+                sol = z3.Solver(); sol.set('timeout', E.query_timeout_ms)
+                for cnd in f.pc + g.pc: sol.add(cnd)
+                if d is not True: sol.add(d)
+                rr = sol.check(); res['queries'] += 1
+                if rr == z3.sat:
+                    res['status'] = 'violated'; res['sat'] += 1; res['note'] = 'n=%d: the tweak / address differs between a run without and a run with a selected leaf' % ob['n']; res['key'] = 'C06:address-depends-on-selection'
+                    res['cex'] = sesslib.concretize(sol.model(), inputs); break
+                elif rr == z3.unknown: res['status'] = 'inconclusive'; res['note'] = 'solver unknown (selection independence)'; res['unknown'] += 1
+                else: res['unsat'] += 1
+            if res['status'] != 'holds': break
     res['classes'] = cls
     if not any(k == 'ret' for k in cls) and res['status'] == 'holds': res['status'] = 'inconclusive'; res['note'] = 'no successful run: %s' % cls
     return res
@@ -224,11 +376,15 @@ def build_tap(wd):
     if r.returncode: raise build.BuildError(r.stdout[-2000:])
     _BIN[wd] = out; return out
 
-def native_check(exe, key, scripts, idx):
+def script_args(ob, scripts):
+    ob = ob or {}
+    return [('[0x%s]' % bytes(s).hex()) if leaf_len(ob, i) == 3 else bytes(full_script(ob, i, s)).hex() for i, s in enumerate(scripts)]
+
+def native_check(exe, key, scripts, idx, ob=None):
     """run the real tap binary and verify its output with an independent BIP341 implementation (real SHA-256; the curve step is taken from the address)"""
     import hashlib
     def tagged(tag, d): t = hashlib.sha256(tag).digest(); return hashlib.sha256(t + t + bytes(d)).digest()
-    cmd = [exe, bytes(key).hex(), str(len(scripts))] + ['[0x%s]' % bytes(s).hex() for s in scripts] + ([str(idx)] if idx is not None else [])
+    cmd = [exe, bytes(key).hex(), str(len(scripts))] + script_args(ob, scripts) + ([str(idx)] if idx is not None else [])
     rc, out, err = runtool.run(cmd, stdin_tty=True, stdout_tty=True)
     txt = (out + err).replace(b'\r\n', b'\n').decode('latin1')
     import re
@@ -236,18 +392,59 @@ def native_check(exe, key, scripts, idx):
     if rc != 0 or not ma: return None, 'tap exit %s: %s' % (rc, txt[-300:])
     res = dict(address=ma.group(1))
     if idx is not None and mc and mt:
-        ctl = bytes.fromhex(mc.group(1)); script = bytes([2]) + bytes(scripts[idx])
-        k = tagged(b'TapLeaf', bytes([0xc0]) + bytes([len(script)]) + script)
+        ctl = bytes.fromhex(mc.group(1)); script = bytes(full_script(ob or {}, idx, scripts[idx]))
+        k = tagged(b'TapLeaf', bytes([0xc0]) + bytes(hashref.compact_size(len(script))) + script)
         for j in range((len(ctl) - 33) // 32):
             node = ctl[33 + 32 * j:65 + 32 * j]; k = tagged(b'TapBranch', k + node) if k < node else tagged(b'TapBranch', node + k)
         res['proof_ok'] = (k.hex() == mt.group(1)) and ctl[1:33] == bytes(key)
         res['root'] = mt.group(1)
     return res, txt[-200:]
 
+def native_taptx(exe, key, scripts, idx, F, sig, ob=None):
+    """real tap binary with --tx/--txin built from concrete field values; the printed transaction and sighash are checked with hashlib"""
+    import hashlib, re
+    # the opaque tweaked key of the symbolic run is not the real one: pay the funding output to the real output key (taken from a run without transactions) so that tap accepts the pair
+    rc, out, err = runtool.run([exe, bytes(key).hex(), str(len(scripts))] + script_args(ob, scripts), stdin_tty=True, stdout_tty=True)
+    mk = re.search(r'Tweaked pubkey = ([0-9a-f]{64})', (out + err).decode('latin1'))
+    if not mk: return None, 'tap without transactions failed: %s' % (out + err)[-300:]
+    PROGRAM = list(bytes.fromhex(mk.group(1)))
+    f_full, f_stripped = C03.ser_tx([2, 0, 0, 0], [([0x11] * 32, [0, 0, 0, 0], [], [0xff] * 4, None)], [(F['amount'], [0x51, 0x20] + PROGRAM)], [0, 0, 0, 0])
+    txid = list(hashlib.sha256(hashlib.sha256(bytes(f_stripped)).digest()).digest())
+    out_spk = [0x00, 0x14] + [0x22] * 20
+    s_full, _ = C03.ser_tx(F['ver'], [(txid, [0, 0, 0, 0], [], F['seq'], None)], [(F['oval'], out_spk)], F['lock'])
+    cmd = [exe, '--tx=' + bytes(s_full).hex(), '--txin=' + bytes(f_full).hex()] + (['--sig=' + bytes(SIG64).hex()] if sig else [])
+    cmd += [bytes(key).hex(), str(len(scripts))] + script_args(ob, scripts) + ([str(idx)] if idx is not None else []) + ['0x' + bytes(a).hex() for a in (ob or {}).get('spendargs', [])]
+    rc, out, err = runtool.run(cmd, stdin_tty=True, stdout_tty=True)
+    txt = (out + err).replace(b'\r\n', b'\n').decode('latin1')
+    mt = re.search(r'Resulting transaction: ([0-9a-f]+)', txt); ms = re.search(r'sighash \(little endian\) = ([0-9a-f]+)', txt); mc = re.search(r'Final control object = ([0-9a-f]+)', txt)
+    if rc != 0 or not mt or not ms: return None, 'tap exit %s: %s' % (rc, txt[-400:])
+    wit = [SIG64 if sig else list(bytes.fromhex('000102030405060708090a0b0c0d0e0f' * 4))]; leaf = None
+    if idx is not None:
+        script = full_script(ob or {}, idx, list(scripts[idx])); wit += [list(a) for a in (ob or {}).get('spendargs', [])] + [script, list(bytes.fromhex(mc.group(1)))]
+        leaf = hashref.tagged(b'TapLeaf', [0xc0] + hashref.compact_size(len(script)) + script)
+    ins = [(txid, [0, 0, 0, 0], [], F['seq'], wit)]; outs = [(F['oval'], out_spk)]
+    want_tx, _ = C03.ser_tx(F['ver'], ins, outs, F['lock'])
+    class Ctx:
+        def branch(s, c): c = z3.simplify(c) if is_sym(c) else c; return c is True or (c is not False and z3.is_true(c))
+    want = sighashlib.ref_bip341(Ctx(), dict(ver=F['ver'], lock=F['lock'], ins=ins, outs=outs), [(F['amount'], [0x51, 0x20] + PROGRAM)], 0, z3.BitVecVal(0, 8), R.TAPSCRIPT if leaf is not None else R.TAPROOT, None, None, leaf, [0xff] * 4)
+    want = bytes(sesslib.concretize(_m0(), want))
+    return dict(tx_ok=(mt.group(1) == bytes(want_tx).hex()), sighash_ok=(ms.group(1) == want.hex()), sighash=ms.group(1), want=want.hex()), txt[-200:]
+def _m0():
+    s = z3.Solver(); s.check(); return s.model()
+
 def replay(lib, ob, cex):
     exe = build_tap(os.path.dirname(lib._name))
-    r, txt = native_check(exe, cex['key'], cex['scripts'], ob['idx'])
+    if ob is None: ob = dict(kind='taptx' if 'fields' in cex else 'tap', idx=cex.get('idx'), sig=cex.get('sig', 0), n=len(cex['scripts']))      # a violation observed natively during validation
+    if ob['kind'] == 'taptx':
+        r, txt = native_taptx(exe, cex['key'], cex['scripts'], ob['idx'], cex['fields'], ob['sig'], ob)
+        if r is None: return None, txt
+        return (not r['tx_ok'] or not r['sighash_ok']), 'real tap --tx/--txin: %s' % r
+    r, txt = native_check(exe, cex['key'], cex['scripts'], ob['idx'], ob)
     if r is None: return None, txt
+    if ob['idx'] is None:
+        r2, txt2 = native_check(exe, cex['key'], cex['scripts'], 0, ob)
+        if r2 is None: return None, txt2
+        return (r['address'] != r2['address']), 'real tap: address without selection %s, with leaf 0 selected %s' % (r['address'], r2['address'])
     return (r.get('proof_ok') is False), 'real tap: %s' % r
 
 def validate(E, lib):
@@ -262,6 +459,12 @@ def validate(E, lib):
         if base is None: raise EncoderMismatch('tap failed natively: ' + _)
         for i in range(cnt):
             r, txt = native_check(exe, key, scripts, i)
-            if r is None or r['address'] != base['address'] or not r.get('proof_ok'): raise EncoderMismatch('native tap output does not verify: n=%d i=%d %r' % (cnt, i, r))
+            if r is None or r['address'] != base['address'] or not r.get('proof_ok'): raise NativeViolation('C06:native-proof', 'real tap: output does not verify under BIP341 (key %s, scripts %s, index %d): %r' % (key.hex(), scripts, i, r), dict(key=list(key), scripts=scripts, idx=i))
             n += 1
+    F = dict(ver=[1, 0, 0, 0], lock=[0x10, 0x27, 0, 0], seq=[0xfd, 0xff, 0xff, 0xff], oval=list((12345).to_bytes(8, 'little')), amount=list((54321).to_bytes(8, 'little')))
+    for (cnt, idx, sig) in ((1, None, 0), (2, 1, 0), (3, 2, 1), (3, None, 1)):
+        scripts = [[rnd.randrange(256), rnd.randrange(256)] for _ in range(cnt)]
+        r, txt = native_taptx(exe, key, scripts, idx, F, sig)
+        if r is None or not r['tx_ok'] or not r['sighash_ok']: raise NativeViolation('C06:native-sighash', 'real tap --tx/--txin: printed transaction / reported sighash do not match the BIP341 reference (scripts %s, index %s, sig %d): %r' % (scripts, idx, sig, r), dict(key=list(key), scripts=scripts, idx=idx, fields=F, sig=sig))
+        n += 1
     return n
